@@ -136,6 +136,16 @@ class Check:
                 nodes.append({"path": lp, "type": "symlink", "target": spell(ROOT + "/no/such")})
             else:
                 nodes.append({"path": lp, "type": "symlink", "target": name})
+        if rng.random() < 0.1:
+            # names are case-sensitive: two real directories that differ only in letter case, one of them also behind a link
+            da, db = ROOT + "/Pair", ROOT + "/pair"
+            if da not in have and db not in have:
+                have.update((da, db))
+                nodes.append({"path": da, "type": "dir"})
+                nodes.append({"path": da + "/in_upper", "type": "file", "content": "x"})
+                nodes.append({"path": db, "type": "dir"})
+                nodes.append({"path": db + "/in_lower", "type": "file", "content": "x"})
+                nodes.append({"path": SIB + "/to_pair", "type": "symlink", "target": rel_to(SIB + "/to_pair", rng.choice([da, db]))})
         if rng.random() < 0.08:
             # names are byte strings: a directory whose name is not valid UTF-8, reachable only through a link
             bad = SIB + "/caf\udce9"
